@@ -16,36 +16,51 @@ fn bpaf_escape(next: u8) -> bool {
     next == b'&' || next == b'\\' || next == b'-' || next == b'*' || next == b' '
 }
 
-fn check_text(out: &[u8], max: usize, starts_line: bool) {
-    // no output line starts with a control character
-    if starts_line && out.len() > 0 {
-        assert!(out[0] != b'.' && out[0] != b'\'');
-    }
+const MAXOUT: usize = 14;
+
+/// copy the output into a fixed array so that all later checks use constant indices
+fn fixed(out: &[u8]) -> ([u8; MAXOUT], usize) {
+    let mut a = [0u8; MAXOUT];
+    let n = out.len();
     let mut i = 0;
-    while i < max {
-        if i + 1 < out.len() && out[i] == b'\n' {
-            assert!(out[i + 1] != b'.' && out[i + 1] != b'\'');
+    while i < MAXOUT {
+        if i < n {
+            a[i] = out[i];
         }
         i += 1;
     }
-    // every backslash starts an escape produced by bpaf; `\\` consumes two bytes
+    (a, n)
+}
+
+fn check_text(out: &[u8], starts_line: bool) {
+    assert!(out.len() <= MAXOUT);
+    let (a, n) = fixed(out);
+    // one pass: `line_start` = the next byte begins an output line, `esc` = the previous byte was an unconsumed backslash
+    let mut line_start = starts_line;
+    let mut esc = false;
     let mut i = 0;
-    let mut skip = false;
-    while i < max {
-        if i < out.len() {
-            if skip {
-                skip = false;
-            } else if out[i] == b'\\' {
-                assert!(i + 1 < out.len() && bpaf_escape(out[i + 1]));
-                skip = true;
+    while i < MAXOUT {
+        if i < n {
+            let c = a[i];
+            if esc {
+                // every backslash starts an escape produced by bpaf itself
+                assert!(bpaf_escape(c));
+                esc = false;
+                line_start = false;
+            } else {
+                // no output line starts with a control character
+                assert!(!(line_start && (c == b'.' || c == b'\'')));
+                esc = c == b'\\';
+                line_start = c == b'\n';
             }
         }
         i += 1;
     }
+    assert!(!esc);
 }
 
 #[kani::proof]
-#[kani::unwind(24)]
+#[kani::unwind(16)]
 fn k08_escape_special_one_fragment() {
     let c0: u8 = kani::any();
     let c1: u8 = kani::any();
@@ -56,15 +71,14 @@ fn k08_escape_special_one_fragment() {
     let mut out = Vec::with_capacity(24);
     let items = [(&mode, s.as_str())];
     escape(items, &mut out, ap);
-    assert!(out.len() <= 20);
-    check_text(&out, 20, true);
+    check_text(&out, true);
     kani::cover!(c0 == b'.' && c1 == b'\\');
     std::mem::forget(out);
     std::mem::forget(s);
 }
 
 #[kani::proof]
-#[kani::unwind(24)]
+#[kani::unwind(16)]
 fn k08_escape_line_start_inherited() {
     // the second fragment starts a line only because the first one ended with a newline
     let c0: u8 = kani::any();
@@ -79,12 +93,16 @@ fn k08_escape_line_start_inherited() {
     let mut out = Vec::with_capacity(32);
     let items = [(&m1, first.as_str()), (&m2, second.as_str())];
     escape(items, &mut out, Apostrophes::DontHandle);
-    assert!(out.len() <= 12);
-    // whatever the first fragment was, no line of the output may start with `.` or `'`
+    assert!(out.len() <= MAXOUT);
+    // whatever the first fragment was, no line of the output may start with `.` or `'` (the first byte is the
+    // first fragment's business and is only checked when that fragment is escaped text)
+    let (a, n) = fixed(&out);
+    let mut line_start = m1 == Escape::Special;
     let mut i = 0;
-    while i < 12 {
-        if i + 1 < out.len() && out[i] == b'\n' {
-            assert!(out[i + 1] != b'.' && out[i + 1] != b'\'');
+    while i < MAXOUT {
+        if i < n {
+            assert!(!(line_start && (a[i] == b'.' || a[i] == b'\'')));
+            line_start = a[i] == b'\n';
         }
         i += 1;
     }
@@ -96,7 +114,7 @@ fn k08_escape_line_start_inherited() {
 
 /// control-line arguments (.TH / .SH / .SS): no raw space, no raw newline, no raw backslash
 #[kani::proof]
-#[kani::unwind(24)]
+#[kani::unwind(8)]
 fn k08_escape_spaces_control_line_argument() {
     let c0: u8 = kani::any();
     let c1: u8 = kani::any();
